@@ -83,7 +83,7 @@ def make_rig(cfg, transport='udp', fill=None, T=1, R=0, ka=False, ctx=None, keep
             for i in range(len(dev.runtime)):
                 dev.runtime[i] = fill(i) & 0xFF
         return Rig('ES', dev, transport, T, R, ka, ctx, keep_world=keep_world)
-    dev = ModbusDevice(unit=0xF7 if fam == 'ET' else 0x7F, **({'fill': fill} if fill else {}))
+    dev = ModbusDevice(unit=cfg.get('comm_addr') or (0xF7 if fam == 'ET' else 0x7F), **({'fill': fill} if fill else {}))
     dev.mbap_length = cfg.get('mbap_length', 'correct')
     dev.refuse_mode = cfg.get('refuse_mode', 'touch')
     dev.refused_requests = set(tuple(x) for x in cfg.get('refused_requests', ()))
@@ -96,7 +96,7 @@ def make_rig(cfg, transport='udp', fill=None, T=1, R=0, ka=False, ctx=None, keep
         dt_device_info(dev, serial=serial_for(cfg['tag']))
         for name in cfg['refused']:
             dev.refused += DT_OPTIONAL[name]
-    return Rig(fam, dev, transport, T, R, ka, ctx, keep_world=keep_world)
+    return Rig(fam, dev, transport, T, R, ka, ctx, keep_world=keep_world, comm_addr=cfg.get('comm_addr', 0))
 
 
 VERSION_VALUES = tuple(range(0, 41)) + (50, 99, 100, 255, 256, 1000, 32767, 65535)
